@@ -1127,6 +1127,13 @@ def _bloch(a):
     pulse = (rs.standard_normal(Nt) + 1j * rs.standard_normal(Nt)) * scale / np.sqrt(Nt)
     if a.get("zero"):
         pulse = np.zeros(Nt, dtype=complex)
+    if a.get("pad"):
+        # RF-free tail / head (gradient rewinder or ramp): exactly zero samples with the gradient still on
+        k = max(1, Nt // 3)
+        if a["pad"] in ("tail", "both"):
+            pulse[-k:] = 0
+        if a["pad"] in ("head", "both"):
+            pulse[:k] = 0
     bad = []
 
     def run(p, g=None):
@@ -1165,7 +1172,7 @@ def _bloch(a):
         # composition of Cayley-Klein parameters: second after first
         ac = a2 * a1 - np.conj(b2_) * b1_
         bc = b2_ * a1 + np.conj(a2) * b1_
-        if sim == "abrm_nd":
+        if sim in ("abrm_nd", "blochsim"):
             err = max(np.max(np.abs(ac - al)), np.max(np.abs(bc - be)))
         else:
             err = max(np.max(np.abs(np.abs(ac) - np.abs(al))), np.max(np.abs(np.abs(bc) - np.abs(be))))
